@@ -230,13 +230,21 @@ def mod_req(md):
 
 
 def float_cl(b, x):
-    """value of math.ceil(math.log(x, b)) as the code computes it, or V / Z for the exception"""
+    """value of math.ceil(math.log(x, b)) as the code computes it (lifting exponent), or V / Z for the exception"""
     try:
         return str(math.ceil(math.log(x, b)))
     except ValueError:
         return 'V'
     except ZeroDivisionError:
         return 'Z'
+
+
+def exact_cl(b, x):
+    """extension degree for SecFld(char=b, min_order=x) since the repo fix: the least e >= 0 with b^e >= x, computed with
+    integers; ValueError (V) unless b > 1 and x > 0"""
+    if b <= 1 or x <= 0:
+        return 'V'
+    return str(clog(b, x))
 
 
 # ---------------------------------------------------------------------------------------------
@@ -321,12 +329,10 @@ def secfld_oracle(case, res, S):
                 dd = d or 1
                 p = 2 if n is None else next(k for k in range(2, 2 * n + 3) if is_prime(k) and k ** dd >= n)
             if d is None:
-                d = 1 if n is None else max(clog(p, n), math.ceil(math.log(n, p)))
+                d = 1 if n is None else clog(p, n)     # exact since repo fix (integer loop instead of math.log)
             lifted = t > 0 and p ** d <= m
             if lifted and d > 1:
                 return []   # documented limitation: small extension fields are not lifted (assert in _SecFld)
-            if n is not None and c is not None and e is None and md[0] == 'n' and o is None and n > 2 ** 40:
-                return []   # float log may round down for huge min_order: rejected, not invalid
             probs.append(f'consistent request rejected with {res}')
         return probs
     base = S.subfield if S.subfield else S.field
@@ -347,6 +353,8 @@ def secfld_oracle(case, res, S):
         probs.append(f'ext_deg {d} != requested ext_deg {e}')
     if n is not None and q < n:
         probs.append(f'order {q} < min_order {n}')
+    if clean(case) and truthy(c) and e is None and o is None and md[0] == 'n' and n is not None and n >= 1 and d != max(clog(c, n), 0):
+        probs.append(f'char={c}, min_order={n}: expected the least extension degree {clog(c, n)}, got {d}')
     if det is not None and det[0] == 'sat' and det[3] is not None:
         if digits(p, int(base.modulus)) != det[3]:
             probs.append('modulus differs from the requested modulus')
@@ -438,6 +446,12 @@ def secfld_cases(ctx, rng):
         for n in mins[:14]:
             cases.append((m, t, None, N, None, None, n))
     m0 = [(1, 0), (3, 1), (5, 2)]
+    # min_order far beyond double precision with a given characteristic (repo fix: the extension degree is computed with integers;
+    # math.ceil(math.log(min_order, char)) rounded down for 2^64+1 and up for 125 = 5^3)
+    for (m, t) in ((1, 0), (3, 1)):
+        for c, n in ((2, 2 ** 64 + 1), (2, 2 ** 53 + 1), (2, 2 ** 64), (2, 2 ** 100 + 1), (3, 3 ** 40 + 1), (3, 3 ** 40), (5, 125), (2, 2 ** 29),
+                     (7, 7 ** 30 + 1), (5, 5 ** 20)):
+            cases.append((m, t, None, N, c, None, n))
     # pairs
     for (m, t) in m0:
         for c in chars:
@@ -508,6 +522,34 @@ def violation_replay(kind, case, expected, observed):
     return {'kind': kind, 'case': list(case), 'expected': expected, 'observed': observed}
 
 
+def check_big_min_order(ctx):
+    """SecFld(char=c, min_order=n) for n far beyond the range of the model's brute-force irreducibility test (oracle only):
+    characteristic c and EXACTLY the least extension degree with c^d >= n (theorem secfld_least_exponent needs the exact
+    ceiling of the logarithm; the code computed it with math.log before the repo fix)"""
+    nets = Nets()
+    try:
+        for (m, t) in ((1, 0), (3, 1)):
+            for c, n in ((2, 2 ** 64 + 1), (2, 2 ** 53 + 1), (2, 2 ** 64), (2, 2 ** 100 + 1), (3, 3 ** 40 + 1), (3, 3 ** 40), (5, 125),
+                         (2, 2 ** 29), (7, 7 ** 30 + 1), (5, 5 ** 20), (11, 11 ** 15 + 1), (2, 2 ** 200)):
+                case = (m, t, None, ('n',), c, None, n)
+                res, S = real_secfld(nets, case)
+                ctx.case(('big-min-order', m, t, c, n), nontrivial=True)
+                ctx.count('secfld_big_min_order')
+                d = clog(c, n)
+                if S is None:
+                    ctx.violation(f'C39 SecFld(char={c}, min_order={n}) m={m} t={t}: consistent request rejected with {res}',
+                                  violation_replay('secfld', case, f'GF({c}^{d})', res))
+                    return
+                base = S.subfield if S.subfield else S.field
+                if base.characteristic != c or base.ext_deg != d or base.order != c ** d:
+                    ctx.violation(f'C39 SecFld(char={c}, min_order={n}) m={m} t={t}: got GF({base.characteristic}^{base.ext_deg}), '
+                                  f'expected the least extension degree {d}',
+                                  violation_replay('secfld', case, f'GF({c}^{d})', res))
+                    return
+    finally:
+        nets.close()
+
+
 def check_secfld(ctx, cases, tag):
     nets = Nets()
     reqs, impl, keep = [], [], []
@@ -530,7 +572,7 @@ def check_secfld(ctx, cases, tag):
             ctx.violation(f'C39 SecFld m={m} t={t} order={o} modulus={mod_arg(md)!r} char={c} ext_deg={e} min_order={n}: '
                           f'{probs[0]}', violation_replay('secfld', case, 'see property statement', [res] + probs[:4]))
             continue
-        cl1 = float_cl(c, n) if (c is not None and n is not None) else '-'
+        cl1 = exact_cl(c, n) if (c is not None and n is not None) else '-'
         cl2 = '-'
         if S is not None:
             base = S.subfield if S.subfield else S.field
@@ -664,6 +706,8 @@ def check_threshold(ctx):
                         got += f' parties={len(rt.parties)}'
                 except AssertionError:
                     got = 'AssertionError'
+                except ValueError:
+                    got = 'ValueError'
                 except SystemExit:
                     got = 'SystemExit'
                 reqs.append(f'thr {m} {opt(t)}')
@@ -672,6 +716,8 @@ def check_threshold(ctx):
                 # definition
                 if t is None:
                     want = f'ok {max(k for k in range(0, m) if 2 * k < m)}'
+                elif t < 0:
+                    want = 'ValueError'          # refused by the setter of Runtime.threshold (repo fix: 0 <= 2t < m)
                 elif 2 * t < m:
                     want = f'ok {t}'
                 else:
@@ -685,6 +731,34 @@ def check_threshold(ctx):
         asyncio.set_event_loop(None)
         loop.close()
     BATCH.append(('setup() threshold', reqs, impl, None))
+    set_threshold_at_runtime(ctx)
+
+
+def set_threshold_at_runtime(ctx):
+    """assigning mpc.threshold on a set-up runtime: accepted iff 0 <= 2t < m (theorem set_threshold_valid); after a refused
+    assignment the threshold is unchanged"""
+    for m in (1, 2, 3, 4, 5, 7):
+        net = SimNet(m, None, no_prss=True, seed=1)
+        rt = net.rts[0]
+        t0 = rt.threshold
+        for t in range(-2, m + 2):
+            try:
+                net.ctx[0].run(setattr, rt, 'threshold', t)
+                got = f'ok {rt.threshold}'
+            except ValueError:
+                got = 'ValueError'
+            except AssertionError:
+                got = 'AssertionError'
+            want = f'ok {t}' if 0 <= 2 * t < m else 'ValueError'
+            ctx.case(('set-thr', m, t), nontrivial=True)
+            ctx.count('threshold-setter')
+            if got != want or (want == 'ValueError' and rt.threshold not in (t0,) + tuple(range(0, m))):
+                ctx.violation(f'C39 mpc.threshold = {t} with m={m}: {got}, expected {want}',
+                              violation_replay('set-threshold', (m, t), want, got))
+                return
+            if got.startswith('ok'):
+                t0 = t
+        net.ctx[0].run(setattr, rt, 'threshold', (m - 1) // 2)
 
 
 def check_pfield(ctx, rng):
@@ -851,6 +925,7 @@ def run(ctx):
     check_pfield(ctx, rng)
     check_lifted_runs(ctx)
     check_secfld(ctx, secfld_cases(ctx, rng), 'run')
+    check_big_min_order(ctx)
     flush_batch(ctx)
 
 
